@@ -36,6 +36,23 @@ fn fft_permute_index_injective_contract() {
     assert!(permute_index(size, i) != permute_index(size, j));
 }
 
+/// the recurrence on the lowest bit that characterises the bit reversal:
+/// permute_index(1, 0) == 0 and permute_index(2m, i) == (i mod 2) * m + permute_index(m, i div 2).
+/// (Verus unit fftcore assumes exactly this clause - ax_pidx - to identify permute_index with its specification
+/// function `bitrev`.)
+#[kani::proof]
+fn fft_permute_index_recurrence_contract() {
+    assert!(permute_index(1, 0) == 0);
+    let k: u32 = kani::any();
+    kani::assume(1 <= k && k <= 63);
+    let size = 1usize << k;
+    let i: usize = kani::any();
+    kani::assume(i < size);
+    kani::cover!(k == 1 && i == 1);
+    kani::cover!(k == 63 && i == size - 1);
+    assert!(permute_index(size, i) == (i % 2) * (size / 2) + permute_index(size / 2, i / 2));
+}
+
 #[kani::proof]
 fn fft_index_canary_must_fail() {
     let i: usize = kani::any();
